@@ -150,7 +150,7 @@ pub fn run_history(rng: &mut Rng, opts: &HistoryOpts, rep: &mut Report, prop: &s
 pub fn run_history_t(rng: &mut Rng, opts: &HistoryOpts, rep: &mut Report, prop: &str, record: bool) -> (Case, Vec<Disc>, Option<Vec<String>>) {
     let mut w = World::with_setup2(opts.api, opts.prestored, opts.one_address_per_code);
     let api = opts.api;
-    let one_address_per_code = opts.one_address_per_code && api != ApiKind::Plain;
+    let one_address_per_code = opts.one_address_per_code;
     let prestored = opts.prestored && !one_address_per_code && api != ApiKind::Plain;
     if record {
         w.transcript = Some(vec![]);
